@@ -9,7 +9,7 @@ from sympy import Integer
 
 from .facts import Broken, walk, pp
 from .effects import callee
-from . import sym
+from . import sym, history
 from .sym import Interp, Vec, SmallMat, BlockVec, Container, Unsupported
 from .props.common import strip_copy
 
@@ -43,6 +43,8 @@ class BlockRun:
         I.case = dict(CASES[kind])
         I.log_calls = True
         I.field_assumptions[M.m_count] = {"positive": True}
+        if history.active():
+            I.path_oracle = history.oracle
         env = {}
         for p, a in zip(g["params"], args):
             env[p["id"]] = I.field(M.cls, a["field"])
